@@ -70,11 +70,13 @@ def run(ctx):
 
     # the request queue: tuple positions
     pushed = None
+    pushed_names = None
     for bb, t in main.calls():
         if callee_name(t["fn"].get("path", "")) == "push":
             a = mev0.call_args(bb)
-            if len(a) == 2 and a[1][0] == "agg" and a[1][1] == "tuple" and any(is_call(e, "make_request") for e in a[1][2]):
+            if len(a) == 2 and a[1][0] == "agg" and (a[1][1] == "tuple" or str(a[1][1]).rsplit("::", 1)[0] in P.adts or a[1][1] in P.adts) and any(is_call(e, "make_request") for e in a[1][2]):
                 pushed = (a[0], a[1][2])
+                pushed_names = a[1][3] if len(a[1]) > 3 and a[1][3] else None
     if pushed is None:
         raise AnchorMissing("request queue of (.., request, ..) tuples in main")
     cont, elems = pushed
@@ -86,6 +88,11 @@ def run(ctx):
             for j, e2 in enumerate(elems):
                 if e2 == nonce_arg:
                     pos_kind[str(j)] = "nonce"
+    if pushed_names:
+        # a record with named fields: the same roles under the field names
+        for i, nm_ in enumerate(pushed_names):
+            if str(i) in pos_kind:
+                pos_kind[str(nm_)] = pos_kind[str(i)]
 
     # ------------------------------------------------------------------ (1) leaf kind agreement
     cfn, cev, routes = sm.routing(ctx, W)
@@ -295,6 +302,7 @@ def run(ctx):
         vop = st["rv"]["ops"][st["rv"]["fields"].index("verified")]
         vpl = vop.get("cp") or vop.get("mv")
         falses = []
+        fl_enum, fl_yes = c01mod().flag_enum_info(ctx, W, "roughenough_client::ParsedResponse")
         seen = set()
         work = [vpl["l"]] if vpl else []
         while work:
@@ -307,6 +315,8 @@ def run(ctx):
                     rv = pfn.blocks[b].stmts[i]["rv"]
                     if rv["k"] == "use" and "c" in rv["op"] and values.const_term(rv["op"]["c"]) == ("int", 0):
                         falses.append(b)
+                    elif rv["k"] == "agg" and rv.get("ak") == "adt" and not rv.get("ops") and fl_enum and rv.get("adt") == fl_enum and rv.get("variant") != fl_yes:
+                        falses.append(b)        # the "not verified" variant of a two-valued enum flag
                     elif rv["k"] == "use" and not (rv["op"].get("cp") or rv["op"].get("mv") or {}).get("p"):
                         p2 = rv["op"].get("cp") or rv["op"].get("mv")
                         if p2:
